@@ -1,20 +1,9 @@
 (* C04, time expressions: completeness of the transcribed recognisers.  A string that the reader model accepts is a member of the
-   TTML2 <time-expression> grammar, unless it ends with a line feed (Python's `$`) or is a frame offset followed by anything
-   (_OFFSET_FRAME_RE lacks `$`): the two halves of the recorded finding lax-value-syntax that concern ASCII input. *)
+   TTML2 <time-expression> grammar: every string outside the grammar is rejected (the patterns are anchored at both ends and
+   match ASCII digits only). *)
 From TT Require Import Base.Prelude Base.ImscXml Model.ImscTime Spec.TtmlTimingSpec Proofs.C04.TimeSyntax.
 From Coq Require Import QArith.
 Local Open Scope Z_scope.
-
-Definition ends_nl (s : text) : bool := match rev s with 10 :: _ => true | _ => false end.
-Definition frame_junk (s : text) : bool :=
-  match scan_number s with
-  | Some (_, _, 102 :: r') => match r' with [] => false | _ :: _ => true end
-  | _ => false
-  end.
-Definition lax_trigger (s : text) : bool := ends_nl s || frame_junk s.
-
-Lemma ends_nl_snoc a : ends_nl (a ++ [10]) = true.
-Proof. unfold ends_nl. rewrite rev_app_distr. reflexivity. Qed.
 
 (* ---- inversion of the scanners -------------------------------------------------------------------------------------------- *)
 Lemma span_digits_inv s : forall d r, span_digits s = (d, r) -> s = d ++ r /\ forallb is_digit d = true.
@@ -68,26 +57,22 @@ Proof.
     apply Z.eqb_eq in E. subst. cbn [app]. f_equal. apply IH. exact H.
 Qed.
 
-Lemma at_end_cases r : at_end r = true -> r = [] \/ r = [10].
-Proof.
-  destruct r as [|c r]; [auto|]. destruct r; [|discriminate]. cbn. intro H. apply Z.eqb_eq in H. subst. auto.
-Qed.
+Lemma at_end_inv r : at_end r = true -> r = [].
+Proof. destruct r; [reflexivity|discriminate]. Qed.
 
-(* an anchored offset match on a string that does not end with a line feed *)
 Lemma match_offset_inv (u : text) s v (m : metric) :
-  metric_text m = u -> ends_nl s = false -> match_offset u true s = Some v ->
+  metric_text m = u -> match_offset u s = Some v ->
   exists ip fp, wf_texpr (TOffset ip fp m) = true /\ print_time (TOffset ip fp m) = s.
 Proof.
-  intros Hm Hnl. unfold match_offset. destruct (scan_number s) as [[[ip fp] r]|] eqn:Es; [|discriminate].
+  intros Hm. unfold match_offset. destruct (scan_number s) as [[[ip fp] r]|] eqn:Es; [|discriminate].
   destruct (strip_prefix u r) as [r'|] eqn:Ep; [|discriminate].
   destruct (at_end r') eqn:Ea; [|discriminate]. intros _.
   destruct (scan_number_inv _ _ _ _ Es) as [ip' [fp' [A [B [C D]]]]].
   apply strip_prefix_inv in Ep. subst r.
-  destruct (at_end_cases _ Ea) as [-> | ->].
-  - exists ip', fp'. split.
-    + cbn [wf_texpr]. rewrite A, B, C. reflexivity.
-    + cbn [print_time]. rewrite Hm, D, app_nil_r. reflexivity.
-  - exfalso. rewrite D in Hnl. rewrite !app_assoc in Hnl. rewrite ends_nl_snoc in Hnl. discriminate.
+  apply at_end_inv in Ea. subst r'.
+  exists ip', fp'. split.
+  - cbn [wf_texpr]. rewrite A, B, C. reflexivity.
+  - cbn [print_time]. rewrite Hm, D, app_nil_r. reflexivity.
 Qed.
 
 Lemma is_digit_chr c : is_digit c = true -> exists d, is_dec d = true /\ chr d = c.
@@ -98,10 +83,10 @@ Proof. rewrite chrs_length. auto. Qed.
 
 Ltac zcases := repeat match goal with |- context [match ?c with _ => _ end] => is_var c; destruct c end; discriminate.
 
-Lemma clock_fraction_inv s v : ends_nl s = false -> match_clock_fraction s = Some v ->
+Lemma clock_fraction_inv s v : match_clock_fraction s = Some v ->
   exists hh m1 m2 s1 s2 fp, wf_texpr (TClock hh m1 m2 s1 s2 fp) = true /\ print_time (TClock hh m1 m2 s1 s2 fp) = s.
 Proof.
-  intros Hnl. unfold match_clock_fraction. destruct (span_digits s) as [hd r] eqn:Es.
+  unfold match_clock_fraction. destruct (span_digits s) as [hd r] eqn:Es.
   destruct (span_digits_inv _ _ _ Es) as [Hs Hd]. clear Es.
   destruct (2 <=? Z.of_nat (length hd)) eqn:Hlen; [|discriminate].
   destruct r as [|c1 [|a1 [|a2 [|c2 [|b1 [|b2 r2]]]]]]; try discriminate; try (solve [zcases]).
@@ -119,11 +104,7 @@ Proof.
             exists hh0 m3 m4 s3 s4 fp, wf_texpr (TClock hh0 m3 m4 s3 s4 fp) = true /\ print_time (TClock hh0 m3 m4 s3 s4 fp) = s).
   { intro Ha. exists hh, m1, m2, s1, s2, []. split.
     - cbn [wf_texpr]. rewrite Hlen, Hh1, M1, M2, S1, S2. reflexivity.
-    - destruct (at_end_cases _ Ha) as [-> | ->].
-      + rewrite Hs. reflexivity.
-      + exfalso. rewrite Hs in Hnl.
-        change (chrs hh ++ [58; chr m1; chr m2; 58; chr s1; chr s2; 10]) with (chrs hh ++ [58; chr m1; chr m2; 58; chr s1; chr s2] ++ [10]) in Hnl.
-        rewrite app_assoc, ends_nl_snoc in Hnl. discriminate. }
+    - apply at_end_inv in Ha. subst r2. rewrite Hs. reflexivity. }
   destruct r2 as [|c3 r3].
   { intros _. apply Hplain. reflexivity. }
   destruct (Z.eq_dec c3 46) as [->|N3].
@@ -133,12 +114,8 @@ Proof.
     exists hh, m1, m2, s1, s2, fp. split.
     + cbn [wf_texpr]. rewrite Hlen, Hh1, M1, M2, S1, S2, F1. reflexivity.
     + assert (Hft : frac_text fp = 46 :: chrs fp) by (destruct fp; [discriminate|reflexivity]).
-      destruct (at_end_cases _ Ea) as [-> | ->].
-      * cbn [print_time]. rewrite Hft, F2, Hs, Hf1, app_nil_r. reflexivity.
-      * exfalso. rewrite Hs, Hf1 in Hnl.
-        change (chrs hh ++ 58 :: chr m1 :: chr m2 :: 58 :: chr s1 :: chr s2 :: 46 :: (f0 :: f) ++ [10])
-          with (chrs hh ++ (58 :: chr m1 :: chr m2 :: 58 :: chr s1 :: chr s2 :: 46 :: (f0 :: f)) ++ [10]) in Hnl.
-        rewrite app_assoc, ends_nl_snoc in Hnl. discriminate.
+      apply at_end_inv in Ea. subst r4.
+      cbn [print_time]. rewrite Hft, F2, Hs, Hf1, app_nil_r. reflexivity.
   - intro H2. apply Hplain.
     assert (E : match c3 :: r3 with
                 | 46 :: r5 => let '(fp, r6) := span_digits r5 in
@@ -149,10 +126,10 @@ Proof.
     rewrite E in H2. destruct (at_end (c3 :: r3)); [reflexivity|discriminate].
 Qed.
 
-Lemma clock_frames_inv s v : ends_nl s = false -> match_clock_frames s = Some v ->
+Lemma clock_frames_inv s v : match_clock_frames s = Some v ->
   exists hh m1 m2 s1 s2 ff, wf_texpr (TClockFrames hh m1 m2 s1 s2 ff) = true /\ print_time (TClockFrames hh m1 m2 s1 s2 ff) = s.
 Proof.
-  intros Hnl. unfold match_clock_frames. destruct (span_digits s) as [hd r] eqn:Es.
+  unfold match_clock_frames. destruct (span_digits s) as [hd r] eqn:Es.
   destruct (span_digits_inv _ _ _ Es) as [Hs Hd]. clear Es.
   destruct (2 <=? Z.of_nat (length hd)) eqn:Hlen; [|discriminate].
   destruct r as [|c1 [|a1 [|a2 [|c2 [|b1 [|b2 [|c3 r2]]]]]]]; try discriminate; try (solve [zcases]).
@@ -174,39 +151,25 @@ Proof.
   apply length_chrs_ge2 in Hlen. apply length_chrs_ge2 in Hfl.
   exists hh, m1, m2, s1, s2, ff. split.
   - cbn [wf_texpr]. rewrite Hlen, Hh1, M1, M2, S1, S2, Hfl, F1. reflexivity.
-  - destruct (at_end_cases _ Ha) as [-> | ->].
-    + cbn [print_time]. rewrite Hs, Hf1, app_nil_r. reflexivity.
-    + exfalso. rewrite Hs, Hf1 in Hnl.
-      change (chrs hh ++ 58 :: chr m1 :: chr m2 :: 58 :: chr s1 :: chr s2 :: 58 :: chrs ff ++ [10])
-        with (chrs hh ++ (58 :: chr m1 :: chr m2 :: 58 :: chr s1 :: chr s2 :: 58 :: chrs ff) ++ [10]) in Hnl.
-      rewrite app_assoc, ends_nl_snoc in Hnl. discriminate.
+  - apply at_end_inv in Ha. subst r3. cbn [print_time]. rewrite Hs, Hf1, app_nil_r. reflexivity.
 Qed.
 
-(* ---- the reader accepts only members of the grammar (outside the two triggers) ------------------------------------- *)
-Theorem time_reject_partial tr fr s q : lax_trigger s = false -> parse_time_x tr fr s = TVal q -> in_grammar s.
+(* ---- the reader accepts only members of the grammar --------------------------------------------------------------------- *)
+Theorem time_accept_in_grammar tr fr s q : parse_time_x tr fr s = TVal q -> in_grammar s.
 Proof.
-  intros Ht H. unfold lax_trigger in Ht. apply orb_false_iff in Ht as [Hnl Hfj].
-  unfold parse_time_x in H.
-  destruct (match_offset U_f false s) as [v|] eqn:Ef.
-  { (* the frame pattern matched: without junk after "f" it is a frame offset of the grammar (also when no frame rate is known,
-       in which case one of the later branches must have accepted the same string) *)
-    assert (Hg : in_grammar s).
-    { unfold match_offset in Ef. destruct (scan_number s) as [[[ip fp] r]|] eqn:Es; [|discriminate].
-      destruct (strip_prefix U_f r) as [r'|] eqn:Ep; [|discriminate].
-      apply strip_prefix_inv in Ep. subst r.
-      unfold frame_junk in Hfj. rewrite Es in Hfj. cbn [U_f app] in Hfj. destruct r'; [|discriminate].
-      destruct (scan_number_inv _ _ _ _ Es) as [ip' [fp' [A [B [C D]]]]].
-      exists (TOffset ip' fp' Mf). split; [cbn [wf_texpr]; rewrite A, B, C; reflexivity|]. cbn [print_time metric_text]. rewrite D. reflexivity. }
-    exact Hg. }
-  destruct (match_offset U_t true s) as [v|] eqn:Et.
-  { destruct (match_offset_inv U_t s v Mt eq_refl Hnl Et) as [ip [fp [A B]]]. exists (TOffset ip fp Mt). auto. }
-  assert (H' : match match_offset U_ms true s with
+  intros H. unfold parse_time_x in H.
+  destruct (match_offset U_f s) as [v|] eqn:Ef.
+  { (* also when no frame rate is known, in which case one of the later branches must have accepted the same string *)
+    destruct (match_offset_inv U_f s v Mf eq_refl Ef) as [ip [fp [A B]]]. exists (TOffset ip fp Mf). auto. }
+  destruct (match_offset U_t s) as [v|] eqn:Et.
+  { destruct (match_offset_inv U_t s v Mt eq_refl Et) as [ip [fp [A B]]]. exists (TOffset ip fp Mt). auto. }
+  assert (H' : match match_offset U_ms s with
                | Some v => TVal (v / inject_Z 1000)%Q
-               | None => match match_offset U_s true s with
+               | None => match match_offset U_s s with
                  | Some v => TVal v
-                 | None => match match_offset U_m true s with
+                 | None => match match_offset U_m s with
                    | Some v => TVal (v * inject_Z 60)%Q
-                   | None => match match_offset U_h true s with
+                   | None => match match_offset U_h s with
                      | Some v => TVal (v * inject_Z 3600)%Q
                      | None => match match_clock_fraction s with
                        | Some (h, m, sec) => TVal (inject_Z h * inject_Z 3600 + inject_Z m * inject_Z 60 + sec)%Q
@@ -217,23 +180,34 @@ Proof.
                          | _, _ => TBad end end end end end end = TVal q).
   { destruct fr, tr; exact H. }
   clear H.
-  destruct (match_offset U_ms true s) as [v|] eqn:E1.
-  { destruct (match_offset_inv U_ms s v Mms eq_refl Hnl E1) as [ip [fp [A B]]]. exists (TOffset ip fp Mms). auto. }
-  destruct (match_offset U_s true s) as [v|] eqn:E2.
-  { destruct (match_offset_inv U_s s v Ms eq_refl Hnl E2) as [ip [fp [A B]]]. exists (TOffset ip fp Ms). auto. }
-  destruct (match_offset U_m true s) as [v|] eqn:E3.
-  { destruct (match_offset_inv U_m s v Mm eq_refl Hnl E3) as [ip [fp [A B]]]. exists (TOffset ip fp Mm). auto. }
-  destruct (match_offset U_h true s) as [v|] eqn:E4.
-  { destruct (match_offset_inv U_h s v Mh eq_refl Hnl E4) as [ip [fp [A B]]]. exists (TOffset ip fp Mh). auto. }
+  destruct (match_offset U_ms s) as [v|] eqn:E1.
+  { destruct (match_offset_inv U_ms s v Mms eq_refl E1) as [ip [fp [A B]]]. exists (TOffset ip fp Mms). auto. }
+  destruct (match_offset U_s s) as [v|] eqn:E2.
+  { destruct (match_offset_inv U_s s v Ms eq_refl E2) as [ip [fp [A B]]]. exists (TOffset ip fp Ms). auto. }
+  destruct (match_offset U_m s) as [v|] eqn:E3.
+  { destruct (match_offset_inv U_m s v Mm eq_refl E3) as [ip [fp [A B]]]. exists (TOffset ip fp Mm). auto. }
+  destruct (match_offset U_h s) as [v|] eqn:E4.
+  { destruct (match_offset_inv U_h s v Mh eq_refl E4) as [ip [fp [A B]]]. exists (TOffset ip fp Mh). auto. }
   destruct (match_clock_fraction s) as [v|] eqn:E5.
-  { destruct (clock_fraction_inv s v Hnl E5) as [hh [m1 [m2 [s1 [s2 [fp [A B]]]]]]]. exists (TClock hh m1 m2 s1 s2 fp). auto. }
+  { destruct (clock_fraction_inv s v E5) as [hh [m1 [m2 [s1 [s2 [fp [A B]]]]]]]. exists (TClock hh m1 m2 s1 s2 fp). auto. }
   destruct (match_clock_frames s) as [v|] eqn:E6.
-  { destruct (clock_frames_inv s v Hnl E6) as [hh [m1 [m2 [s1 [s2 [ff [A B]]]]]]]. exists (TClockFrames hh m1 m2 s1 s2 ff). auto. }
+  { destruct (clock_frames_inv s v E6) as [hh [m1 [m2 [s1 [s2 [ff [A B]]]]]]]. exists (TClockFrames hh m1 m2 s1 s2 ff). auto. }
   destruct fr; discriminate.
 Qed.
 
-Corollary time_reject tr fr s : lax_trigger s = false -> ~ in_grammar s -> parse_time tr fr s = None.
+(* rejection: a string outside the grammar has no value, whatever the rates *)
+Corollary time_reject tr fr s : ~ in_grammar s -> parse_time tr fr s = None.
 Proof.
-  intros Ht Hn. unfold parse_time. destruct (parse_time_x tr fr s) as [q| |] eqn:E; try reflexivity.
-  exfalso. apply Hn. eapply time_reject_partial; eassumption.
+  intros Hn. unfold parse_time. destruct (parse_time_x tr fr s) as [q| |] eqn:E; try reflexivity.
+  exfalso. apply Hn. eapply time_accept_in_grammar; eassumption.
+Qed.
+
+(* and it is rejected as malformed (ValueError, which the attribute readers log), never with a ZeroDivisionError, when the rates are not zero *)
+Corollary time_reject_bad tr fr s : ~ in_grammar s -> Qeq_bool tr 0 = false -> Qeq_bool fr 0 = false ->
+  parse_time_x (Some tr) (Some fr) s = TBad.
+Proof.
+  intros Hn Ht Hf. destruct (parse_time_x (Some tr) (Some fr) s) as [q| |] eqn:E; [| reflexivity |].
+  - exfalso. apply Hn. eapply time_accept_in_grammar; eassumption.
+  - exfalso. unfold parse_time_x, qdiv_res in E. rewrite Ht, Hf in E.
+    repeat match type of E with context [match ?e with _ => _ end] => destruct e end; discriminate.
 Qed.
